@@ -1,14 +1,15 @@
 #!/bin/sh
-# usage: tools/mkseed2.sh Cxx   — prepares a SECOND seeding round for Cxx: /tmp/seed-Cxxb, /tmp/seedout/Cxxb/PROPERTY.txt (+ AVOID.txt listing the kept seeds of Cxx)
+# usage: tools/mkseed2.sh Cxx [suffix]  — prepares a further seeding round for Cxx: /tmp/seed-Cxx<suffix>, /tmp/seedout/Cxx<suffix>/PROPERTY.txt (+ AVOID.txt listing the kept seeds of Cxx); suffix defaults to b
 set -e
 id=$1
+sfx=${2:-b}
 python3 /verif/tools/mkseed.py $id >/dev/null
 git -C /repo worktree remove --force /tmp/seed-$id 2>/dev/null || true
-mkdir -p /tmp/seedout/${id}b
-cp /tmp/seedout/$id/PROPERTY.txt /tmp/seedout/${id}b/PROPERTY.txt
-: > /tmp/seedout/${id}b/AVOID.txt
+mkdir -p /tmp/seedout/${id}${sfx}
+cp /tmp/seedout/$id/PROPERTY.txt /tmp/seedout/${id}${sfx}/PROPERTY.txt
+: > /tmp/seedout/${id}${sfx}/AVOID.txt
 for m in /verif/seeded/$id-*/meta.json; do
-  [ -f "$m" ] && jq -r '"- " + (.summary | .[0:600])' "$m" >> /tmp/seedout/${id}b/AVOID.txt
+  [ -f "$m" ] && jq -r '"- " + (.summary | .[0:600])' "$m" >> /tmp/seedout/${id}${sfx}/AVOID.txt
 done
-[ -d /tmp/seed-${id}b ] || git -C /repo worktree add --detach -q /tmp/seed-${id}b HEAD
-echo prepared ${id}b
+[ -d /tmp/seed-${id}${sfx} ] || git -C /repo worktree add --detach -q /tmp/seed-${id}${sfx} HEAD
+echo prepared ${id}${sfx}
